@@ -45,6 +45,12 @@ def _wrong(I, cls, kind):
             label = "fake"
             nSamples = 1
         return _Fake()
+    if kind == "tuple_tracks":
+        # a container of tracks where one track is expected: not a track (each element
+        # would be valid for a block of one frame)
+        return (S.new_item(I, cls, "p", 1), S.new_item(I, cls, "q", 1))
+    if kind == "list_tracks":
+        return [S.new_item(I, cls, "p", 1), S.new_item(I, cls, "q", 2)]
     if kind == "block_like":
         return S.new_block(I, "force3d" if cls == "data3d" else "data3d", 1)
     raise ValueError(kind)
@@ -174,12 +180,12 @@ def _alphabet(cls, tier):
     q = tier == "quick"
     lens = [0, 1, 2] if q else [0, 1, 2, 3]
     ops = [("add", ("T", L)) for L in lens]
-    ops += [("add", ("W", k)) for k in (["None", "other_track", "track_like"] if q else ["None", "int", "str", "ndarray", "other_track", "track_like", "block_like"])]
+    ops += [("add", ("W", k)) for k in (["None", "other_track", "track_like", "tuple_tracks", "list_tracks"] if q else ["None", "int", "str", "ndarray", "other_track", "track_like", "block_like", "tuple_tracks", "list_tracks"])]
     if cls != "emg":
         lists = [
             ([], "list"), ([("T", 1)], "list"), ([("T", 1), ("T", 1)], "list"), ([("T", 1), ("T", 2)], "list"),
             ([("T", 1), ("W", "None")], "list"), ([("W", "other_track"), ("T", 1)], "list"), ([("T", 2), ("T", 2), ("T", 1)], "tuple"),
-            ([("T", 1), ("T", 1)], "iter"), ([], "none"), ([("T", 1), ("W", "track_like")], "list"),
+            ([("T", 1), ("T", 1)], "iter"), ([], "none"), ([("T", 1), ("W", "track_like")], "list"), ([("T", 1), ("W", "tuple_tracks")], "list"),
         ]
         if not q:
             lists += [([("T", 0)], "list"), ([("T", 1), ("T", 1), ("W", "int")], "list"), ([("T", 3), ("T", 3)], "iter"), ([("T", 2), ("W", "str"), ("T", 2)], "tuple")]
